@@ -454,4 +454,1257 @@ theorem copyTail_good (n : Nat) (l : List Sym) (h : l.Pairwise (fun a b => a.ord
     omega
 
 
+/-! ## `exitComponent_clause` on the symbols of the clause -/
+
+/-- The symbols after the type was filled in and the clause-level subscripts were joined. -/
+def clauseS2 (ty : List String) (cd : Option (List Expr)) (cid nid : Nat) (l : List Sym) : List Sym :=
+  match cd with
+  | some d => joinDims d cid nid (nid + 1) (l.map fun y => { y with type := ty })
+  | none => l.map fun y => { y with type := ty }
+
+theorem clauseExit_eq (ty : List String) (cd : Option (List Expr)) (cid nid : Nat) (l : List Sym) :
+    clauseExit ty cd cid nid l =
+      match clauseS2 ty cd cid nid l with
+      | [] => []
+      | y0 :: ys => y0 :: copyTail (nid + cdimsAlloc cd l.length) ys := by
+  unfold clauseExit clauseS2
+  cases cd <;> rfl
+
+theorem copyTail_map {β} (g : Sym → β) (hg : ∀ y a b c, g { y with dimsId := a, prefId := b, typeId := c } = g y)
+    (n : Nat) (l : List Sym) : (copyTail n l).map g = l.map g := by
+  induction l generalizing n with
+  | nil => rfl
+  | cons y t ih => simp [copyTail, hg, ih]
+
+theorem joinDims_map {β} (g : Sym → β) (hg : ∀ y a b, g { y with dims := a, dimsId := b } = g y)
+    (d : List Expr) (cid nid m : Nat) (l : List Sym) : (joinDims d cid nid m l).map g = l.map g := by
+  induction l generalizing m with
+  | nil => rfl
+  | cons y t ih =>
+    simp only [joinDims, List.map_cons, ih]
+    split <;> simp [hg]
+
+theorem mem_joinDims {d : List Expr} {cid nid m : Nat} {l : List Sym} {z : Sym} (hz : z ∈ joinDims d cid nid m l) :
+    ∃ y ∈ l, z.order = y.order ∧ z.sec = y.sec ∧ z.vis = y.vis ∧ z.typeId = y.typeId ∧ z.prefId = y.prefId ∧
+      (z.dimsId = nid ∨ (m ≤ z.dimsId ∧ z.dimsId < m + l.length)) := by
+  induction l generalizing m with
+  | nil => cases hz
+  | cons y t ih =>
+    simp only [joinDims, List.mem_cons] at hz
+    rcases hz with rfl | hz
+    · refine ⟨y, by simp, ?_⟩
+      split
+      · exact ⟨rfl, rfl, rfl, rfl, rfl, Or.inl rfl⟩
+      · exact ⟨rfl, rfl, rfl, rfl, rfl, Or.inr ⟨Nat.le_refl _, by simp⟩⟩
+    · obtain ⟨y', hy', h1, h2, h3, h4, h5, h6⟩ := ih hz
+      refine ⟨y', by simp [hy'], h1, h2, h3, h4, h5, ?_⟩
+      rcases h6 with h6 | h6
+      · exact Or.inl h6
+      · right; simp only [List.length_cons]; omega
+
+theorem clauseS2_map {β} (g : Sym → β) (hg : ∀ y a b c, g { y with type := a, dims := b, dimsId := c } = g y)
+    (ty : List String) (cd : Option (List Expr)) (cid nid : Nat) (l : List Sym) :
+    (clauseS2 ty cd cid nid l).map g = l.map g := by
+  unfold clauseS2
+  cases cd with
+  | none =>
+    simp only [List.map_map]
+    apply List.map_congr_left
+    intro y _
+    exact hg y ty y.dims y.dimsId
+  | some d =>
+    rw [joinDims_map g (fun y a b => by simpa using hg y y.type a b)]
+    simp only [List.map_map]
+    apply List.map_congr_left
+    intro y _
+    exact hg y ty y.dims y.dimsId
+
+theorem mem_clauseS2 {ty : List String} {cd : Option (List Expr)} {cid nid : Nat} {l : List Sym} {z : Sym}
+    (hz : z ∈ clauseS2 ty cd cid nid l) :
+    ∃ y ∈ l, z.order = y.order ∧ z.sec = y.sec ∧ z.vis = y.vis ∧ z.typeId = y.typeId ∧ z.prefId = y.prefId ∧
+      (z.dimsId = y.dimsId ∨ (nid ≤ z.dimsId ∧ z.dimsId < nid + cdimsAlloc cd l.length)) := by
+  unfold clauseS2 at hz
+  cases cd with
+  | none =>
+    simp only [List.mem_map] at hz
+    obtain ⟨y, hy, rfl⟩ := hz
+    exact ⟨y, hy, rfl, rfl, rfl, rfl, rfl, Or.inl rfl⟩
+  | some d =>
+    obtain ⟨y', hy', h1, h2, h3, h4, h5, h6⟩ := mem_joinDims hz
+    simp only [List.mem_map] at hy'
+    obtain ⟨y, hy, rfl⟩ := hy'
+    refine ⟨y, hy, h1, h2, h3, h4, h5, Or.inr ?_⟩
+    simp only [cdimsAlloc, List.length_map] at h6 ⊢
+    omega
+
+theorem clauseExit_map {β} (g : Sym → β) (hg : ∀ y a b c, g { y with type := a, dims := b, dimsId := c } = g y)
+    (hg' : ∀ y a b c, g { y with dimsId := a, prefId := b, typeId := c } = g y)
+    (ty : List String) (cd : Option (List Expr)) (cid nid : Nat) (l : List Sym) :
+    (clauseExit ty cd cid nid l).map g = l.map g := by
+  rw [clauseExit_eq, ← clauseS2_map g hg ty cd cid nid l]
+  cases clauseS2 ty cd cid nid l with
+  | nil => rfl
+  | cons y0 ys => simp [copyTail_map g hg']
+
+/-- The source view of a symbol after `exitComponent_clause`. -/
+def exitView (ty : List String) (cd : Option (List Expr)) (cid : Nat) (y : Sym) : SymView :=
+  { y.view with type := ty, dims := match cd with
+      | some d => if y.dimsId = cid then [d] else y.dims ++ [d]
+      | none => y.dims }
+
+theorem joinDims_views (d : List Expr) (cid nid m : Nat) (l : List Sym) :
+    (joinDims d cid nid m l).map Sym.view =
+      l.map fun y => { y.view with dims := if y.dimsId = cid then [d] else y.dims ++ [d] } := by
+  induction l generalizing m with
+  | nil => rfl
+  | cons y t ih =>
+    simp only [joinDims, List.map_cons, ih, List.cons.injEq, and_true]
+    split <;> rfl
+
+theorem clauseExit_views (ty : List String) (cd : Option (List Expr)) (cid nid : Nat) (l : List Sym) :
+    (clauseExit ty cd cid nid l).map Sym.view = l.map (exitView ty cd cid) := by
+  have h2 : (clauseS2 ty cd cid nid l).map Sym.view = l.map (exitView ty cd cid) := by
+    unfold clauseS2 exitView
+    cases cd with
+    | none => simp [List.map_map, Function.comp_def, Sym.view]
+    | some d => rw [joinDims_views]; simp [List.map_map, Function.comp_def, Sym.view]
+  rw [clauseExit_eq, ← h2]
+  cases clauseS2 ty cd cid nid l with
+  | nil => rfl
+  | cons y0 ys => simp [copyTail_map Sym.view (fun _ _ _ _ => rfl)]
+
+def clauseSt (c : Clause) (k : Ctr) : ClauseSt := ⟨c.prefixes, k.nextId, k.nextId + 1, k.nextId + 2, []⟩
+def clauseK3 (k : Ctr) : Ctr := { k with nextId := k.nextId + 3 }
+
+/-- The symbols a component clause adds to its class. -/
+def clauseSyms (c : Clause) (sec : Nat) (k : Ctr) : List Sym :=
+  clauseExit c.type c.cdims (k.nextId + 2) (declsCtr c.decls (clauseK3 k)).nextId
+    (declSyms (clauseSt c k) sec c.decls (clauseK3 k))
+
+def clauseCtr (c : Clause) (k : Ctr) : Ctr :=
+  { declsCtr c.decls (clauseK3 k) with
+    nextId := (declsCtr c.decls (clauseK3 k)).nextId + clauseExitAlloc c.cdims c.decls.length }
+
+theorem specClause_ok {c : Clause} {f f' : Frame} {k k' : Ctr} :
+    specClause c f k = .ok (f', k') ↔
+      c.names.Nodup ∧ (∀ n ∈ c.names, n ∉ f.info.symbols.map (·.name)) ∧
+      f' = { f with info := { f.info with symbols := f.info.symbols ++ clauseSyms c f.closed.length k } } ∧
+      k' = clauseCtr c k := by
+  unfold specClause
+  simp only []
+  split
+  · next syms k1 h =>
+    obtain ⟨h1, h2, rfl, rfl⟩ := specDecls_ok.mp h
+    simp only [Except.ok.injEq, Prod.mk.injEq, List.nil_append, declSyms_length]
+    constructor
+    · rintro ⟨rfl, rfl⟩
+      exact ⟨h1, by simpa [Clause.names] using h2, rfl, rfl⟩
+    · rintro ⟨_, _, rfl, rfl⟩
+      exact ⟨rfl, rfl⟩
+  · next e h =>
+    simp only [reduceCtorEq, false_iff, not_and]
+    intro h1 h2
+    have := specDecls_ok (cl := ⟨c.prefixes, k.nextId, k.nextId + 1, k.nextId + 2, []⟩)
+      (names := f.info.symbols.map (·.name)) (sec := f.closed.length) (ds := c.decls) (acc := [])
+      (k := { k with nextId := k.nextId + 3 }) (syms := _) (k' := _) |>.mpr ⟨h1, by simpa [Clause.names] using h2, rfl, rfl⟩
+    rw [h] at this; cases this
+
+/-- Views of the declarators' symbols after the clause is exited (`cid` is older than every tag handed
+    out during the declarations, so "holds the default dimensions object" means "has no subscripts"). -/
+theorem declSyms_exitViews (cl : ClauseSt) (sec : Nat) (ty : List String) (cd : Option (List Expr))
+    (ds : List Decl) (k : Ctr) (hk : cl.dimsId < k.nextId) :
+    (declSyms cl sec ds k).map (exitView ty cd cl.dimsId) =
+      ds.map fun d => ⟨d.name, ty, cl.prefixes, dimsSpec cd d.dims, d.comment, applyMod none d.mod⟩ := by
+  induction ds generalizing k with
+  | nil => rfl
+  | cons d t ih =>
+    simp only [declSyms, List.map_cons]
+    rw [ih _ (by simp only [declCtr]; omega)]
+    simp only [List.cons.injEq, and_true]
+    unfold exitView declSym declExit newSym Sym.view dimsSpec defaultDims
+    cases cd <;> cases hd : d.dims <;> simp
+    omega
+
+theorem clauseSyms_views (c : Clause) (sec : Nat) (k : Ctr) : (clauseSyms c sec k).map Sym.view = c.views := by
+  unfold clauseSyms Clause.views
+  rw [clauseExit_views]
+  exact declSyms_exitViews (clauseSt c k) sec c.type c.cdims c.decls (clauseK3 k) (by simp [clauseSt, clauseK3])
+
+theorem clauseSyms_names (c : Clause) (sec : Nat) (k : Ctr) : (clauseSyms c sec k).map (·.name) = c.names := by
+  unfold clauseSyms Clause.names
+  rw [clauseExit_map (·.name) (fun _ _ _ _ => rfl) (fun _ _ _ _ => rfl)]
+  exact declSyms_names _ _ _ _
+
+theorem clauseSyms_length (c : Clause) (sec : Nat) (k : Ctr) : (clauseSyms c sec k).length = c.decls.length := by
+  have := congrArg List.length (clauseSyms_names c sec k)
+  simpa [Clause.names] using this
+
+theorem clauseCtr_leq (c : Clause) (k : Ctr) : Leq k (clauseCtr c k) := by
+  unfold clauseCtr Leq
+  have h1 := declsCtr_symCount c.decls (clauseK3 k)
+  have h2 := declsCtr_nextId c.decls (clauseK3 k)
+  simp only [clauseK3] at h1 h2 ⊢
+  omega
+
+
+
+theorem clauseSyms_good (c : Clause) (sec : Nat) (k : Ctr) :
+    (clauseSyms c sec k).Pairwise (fun a b => a.Distinct b ∧ a.order < b.order) ∧
+    ∀ y ∈ clauseSyms c sec k, y.Between k (clauseCtr c k) ∧ y.sec = sec ∧ y.vis = .priv := by
+  unfold clauseSyms clauseCtr
+  have hf := declSyms_fields (clauseSt c k) sec c.decls (clauseK3 k)
+  have ho := declSyms_order (clauseSt c k) sec c.decls (clauseK3 k)
+  have hl := declSyms_length (clauseSt c k) sec c.decls (clauseK3 k)
+  have hn := declsCtr_nextId c.decls (clauseK3 k)
+  generalize declSyms (clauseSt c k) sec c.decls (clauseK3 k) = l at hf ho hl
+  generalize declsCtr c.decls (clauseK3 k) = kd at hf hn
+  simp only [clauseSt, clauseK3] at hf hn
+  rw [clauseExit_eq]
+  have hm := @mem_clauseS2 c.type c.cdims (k.nextId + 2) kd.nextId l
+  have hord : (clauseS2 c.type c.cdims (k.nextId + 2) kd.nextId l).Pairwise (fun a b => a.order < b.order) := by
+    have := clauseS2_map (·.order) (fun _ _ _ _ => rfl) c.type c.cdims (k.nextId + 2) kd.nextId l
+    have h1 : (l.map (·.order)).Pairwise (· < ·) := by rw [List.pairwise_map]; exact ho
+    rw [← this, List.pairwise_map] at h1
+    exact h1
+  have hlen : (clauseS2 c.type c.cdims (k.nextId + 2) kd.nextId l).length = l.length := by
+    have := congrArg List.length (clauseS2_map (·.order) (fun _ _ _ _ => rfl) c.type c.cdims (k.nextId + 2) kd.nextId l)
+    simpa using this
+  generalize clauseS2 c.type c.cdims (k.nextId + 2) kd.nextId l = s2 at hm hord hlen
+  cases s2 with
+  | nil => simp
+  | cons z0 zs =>
+    simp only [List.length_cons] at hlen
+    rw [List.pairwise_cons] at hord
+    have hal : clauseExitAlloc c.cdims c.decls.length = cdimsAlloc c.cdims l.length + 3 * zs.length := by
+      unfold clauseExitAlloc; rw [← hl, ← hlen]; simp
+    -- facts about any element of s2
+    have hs2 : ∀ z ∈ z0 :: zs, z.sec = sec ∧ z.vis = .priv ∧ z.typeId = k.nextId + 1 ∧ z.prefId = k.nextId ∧
+        k.symCount ≤ z.order ∧ z.order < kd.symCount ∧ k.nextId ≤ z.dimsId ∧
+        z.dimsId < kd.nextId + cdimsAlloc c.cdims l.length := by
+      intro z hz
+      obtain ⟨y, hy, h1, h2, h3, h4, h5, h6⟩ := hm hz
+      obtain ⟨f1, f2, f3, f4, _, _, f7, f8, f9⟩ := hf y hy
+      refine ⟨h2.trans f3, h3.trans f4, h4.trans f1, h5.trans f2, by omega, by omega, ?_, ?_⟩ <;> omega
+    have htail : ∀ z ∈ copyTail (kd.nextId + cdimsAlloc c.cdims l.length) zs,
+        ∃ y ∈ zs, ∃ j, j < zs.length ∧ z.dimsId = kd.nextId + cdimsAlloc c.cdims l.length + 3 * j ∧
+          z.prefId = kd.nextId + cdimsAlloc c.cdims l.length + 3 * j + 1 ∧
+          z.typeId = kd.nextId + cdimsAlloc c.cdims l.length + 3 * j + 2 ∧
+          z.order = y.order ∧ z.sec = y.sec ∧ z.vis = y.vis := fun z hz => mem_copyTail hz
+    constructor
+    · rw [List.pairwise_cons]
+      constructor
+      · intro z hz
+        obtain ⟨y, hy, j, hj, h1, h2, h3, h4, _, _⟩ := htail z hz
+        have hlt := hord.1 y hy
+        have h0 := hs2 z0 (by simp)
+        unfold Sym.Distinct
+        omega
+      · exact copyTail_good _ _ hord.2
+    · intro z hz
+      simp only [List.mem_cons] at hz
+      unfold Sym.Between
+      simp only [hal]
+      rcases hz with rfl | hz
+      · have h0 := hs2 z (by simp)
+        refine ⟨?_, h0.1, h0.2.1⟩
+        omega
+      · obtain ⟨y, hy, j, hj, h1, h2, h3, h4, h5, h6⟩ := htail z hz
+        have h0 := hs2 y (by simp [hy])
+        refine ⟨?_, h5.trans h0.1, h6.trans h0.2.1⟩
+        omega
+
+/-! ## Counters only grow; every object tag and declaration number is handed out once -/
+
+theorem tick_leq (k : Ctr) : Leq k (tick k) := by
+  unfold tick Leq; cases k.node <;> simp
+
+theorem ticks_leq (n : Nat) (k : Ctr) : Leq k (ticks n k) := by
+  induction n generalizing k with
+  | zero => exact Leq.refl k
+  | succ n ih => exact Leq.trans (tick_leq k) (ih _)
+
+theorem extEvsCtr_leq (evs : List ExtEv) (k : Ctr) : Leq k (extEvsCtr evs k) := by
+  induction evs generalizing k with
+  | nil => exact Leq.refl k
+  | cons e t ih =>
+    refine Leq.trans ?_ (ih _)
+    cases e with
+    | m => exact tick_leq k
+    | d _ _ _ => simp [extEvCtr, Leq]
+
+@[simp] theorem deepSymsList_nil : deepSymsList [] = [] := by simp [deepSymsList]
+@[simp] theorem deepSymsList_cons (c : ClassAst) (t : List ClassAst) :
+    deepSymsList (c :: t) = deepSyms c ++ deepSymsList t := by simp [deepSymsList]
+theorem deepSyms_mk (i : ClassInfo) (cs : List ClassAst) : deepSyms (.mk i cs) = deepSymsList cs ++ i.symbols := by
+  simp [deepSyms]
+
+theorem mem_deepSymsList_dictSet {l : List ClassAst} {c : ClassAst} {y : Sym}
+    (h : y ∈ deepSymsList (dictSet l c)) : y ∈ deepSymsList l ∨ y ∈ deepSyms c := by
+  induction l with
+  | nil => simpa [dictSet] using h
+  | cons x t ih =>
+    simp only [dictSet] at h
+    split at h
+    · simp only [deepSymsList_cons, List.mem_append] at h ⊢
+      rcases h with h | h
+      · exact Or.inr h
+      · exact Or.inl (Or.inr h)
+    · simp only [deepSymsList_cons, List.mem_append] at h ⊢
+      rcases h with h | h
+      · exact Or.inl (Or.inl h)
+      · rcases ih h with h | h
+        · exact Or.inl (Or.inr h)
+        · exact Or.inr h
+
+theorem pairwise_dictSet {D : Sym → Sym → Prop} (hs : ∀ {x y}, D x y → D y x) (l : List ClassAst) (c : ClassAst)
+    (S : List Sym) (h1 : (deepSymsList l ++ S).Pairwise D) (h2 : (deepSyms c).Pairwise D)
+    (h3 : ∀ x ∈ deepSymsList l ++ S, ∀ y ∈ deepSyms c, D x y) :
+    (deepSymsList (dictSet l c) ++ S).Pairwise D := by
+  induction l with
+  | nil =>
+    simp only [dictSet, deepSymsList_cons, deepSymsList_nil, List.append_nil, List.nil_append] at h1 h3 ⊢
+    rw [List.pairwise_append]
+    exact ⟨h2, h1, fun a ha b hb => hs (h3 b hb a ha)⟩
+  | cons x t ih =>
+    simp only [deepSymsList_cons, List.append_assoc] at h1 h3
+    rw [List.pairwise_append] at h1
+    simp only [dictSet]
+    split
+    · simp only [deepSymsList_cons, List.append_assoc]
+      rw [List.pairwise_append]
+      refine ⟨h2, h1.2.1, fun a ha b hb => hs (h3 b ?_ a ha)⟩
+      exact List.mem_append_right _ hb
+    · simp only [deepSymsList_cons, List.append_assoc]
+      rw [List.pairwise_append]
+      refine ⟨h1.1, ih h1.2.1 (fun a ha b hb => h3 a (List.mem_append_right _ ha) b hb), ?_⟩
+      intro a ha b hb
+      rw [List.mem_append] at hb
+      rcases hb with hb | hb
+      · rcases mem_deepSymsList_dictSet hb with hb | hb
+        · exact h1.2.2 a ha b (List.mem_append_left _ hb)
+        · exact h3 a (List.mem_append_left _ ha) b hb
+      · exact h1.2.2 a ha b (List.mem_append_right _ hb)
+
+/-- All symbols held by a class under construction: those of its finished nested classes and its own. -/
+def frameSyms (f : Frame) : List Sym := deepSymsList f.classes ++ f.info.symbols
+
+def FrameOK (lo : Ctr) (f : Frame) (k : Ctr) : Prop :=
+  (frameSyms f).Pairwise Sym.Distinct ∧ ∀ y ∈ frameSyms f, y.Between lo k
+
+theorem FrameOK.attach {lo k k1 : Ctr} {f : Frame} {a : ClassAst} (hf : FrameOK lo f k) (hlo : Leq lo k) (hk : Leq k k1)
+    (h2 : (deepSyms a).Pairwise Sym.Distinct) (h3 : ∀ y ∈ deepSyms a, y.Between k k1) : FrameOK lo (f.attach a) k1 := by
+  unfold FrameOK frameSyms Frame.attach at *
+  constructor
+  · apply pairwise_dictSet (fun h => Sym.Distinct.symm h) _ _ _ hf.1 h2
+    intro x hx y hy
+    exact ((hf.2 x hx).distinct (h3 y hy) (Leq.refl k)).1
+  · intro y hy
+    rw [List.mem_append] at hy
+    rcases hy with hy | hy
+    · rcases mem_deepSymsList_dictSet hy with hy | hy
+      · exact (hf.2 y (List.mem_append_left _ hy)).mono (Leq.refl _) hk
+      · exact (h3 y hy).mono hlo (Leq.refl _)
+    · exact (hf.2 y (List.mem_append_right _ hy)).mono (Leq.refl _) hk
+
+theorem FrameOK.mono {lo k k1 : Ctr} {f : Frame} (hf : FrameOK lo f k) (hk : Leq k k1) : FrameOK lo f k1 :=
+  ⟨hf.1, fun y hy => (hf.2 y hy).mono (Leq.refl _) hk⟩
+
+theorem FrameOK.clause {lo k : Ctr} {f : Frame} (c : Clause) (hf : FrameOK lo f k) (hlo : Leq lo k) :
+    FrameOK lo { f with info := { f.info with symbols := f.info.symbols ++ clauseSyms c f.closed.length k } } (clauseCtr c k) := by
+  have hg := clauseSyms_good c f.closed.length k
+  have hk := clauseCtr_leq c k
+  unfold FrameOK frameSyms at *
+  simp only [← List.append_assoc]
+  constructor
+  · rw [List.pairwise_append]
+    refine ⟨hf.1, hg.1.imp (fun h => h.1), ?_⟩
+    intro x hx y hy
+    exact ((hf.2 x hx).distinct (hg.2 y hy).1 (Leq.refl k)).1
+  · intro y hy
+    rw [List.mem_append] at hy
+    rcases hy with hy | hy
+    · exact (hf.2 y hy).mono (Leq.refl _) hk
+    · exact (hg.2 y hy).1.mono hlo (Leq.refl _)
+
+theorem deepSyms_specShort (s : ShortSrc) : deepSyms (specShort s) = [] := by
+  simp [specShort, deepSyms_mk, Frame.addExt, Frame.new, ClassInfo.new]
+
+mutual
+theorem class_ids (c : ClassSrc) (k : Ctr) (a : ClassAst) (k' : Ctr) (h : specClass c k = .ok (a, k')) :
+    Leq k k' ∧ (deepSyms a).Pairwise Sym.Distinct ∧ ∀ y ∈ deepSyms a, y.Between k k' := by
+  match c with
+  | .mk hd first ss =>
+    simp only [specClass] at h
+    split at h
+    · cases h
+    · next f1 k1 h1 =>
+      split at h
+      · cases h
+      · next f2 k2 h2 =>
+        simp only [Except.ok.injEq, Prod.mk.injEq] at h
+        obtain ⟨rfl, rfl⟩ := h
+        have hnew : FrameOK k (Frame.new hd.kind hd.partial_ hd.encapsulated) k := by
+          simp [FrameOK, frameSyms, Frame.new, ClassInfo.new]
+        obtain ⟨l1, o1⟩ := elems_ids first k _ k _ k1 h1 (Leq.refl k) hnew
+        have o1' : FrameOK k { f1 with closed := f1.closed ++ [none] } k1 := o1
+        obtain ⟨l2, o2⟩ := sections_ids ss k _ k1 _ k2 h2 l1 o1'
+        have l3 := ticks_leq hd.annTicks k2
+        refine ⟨Leq.trans l1 (Leq.trans l2 l3), ?_, ?_⟩
+        · simp only [deepSyms_mk, Frame.composition]
+          have := o2.1
+          unfold frameSyms at this
+          rw [List.pairwise_append] at this ⊢
+          refine ⟨this.1, ?_, ?_⟩
+          · rw [List.pairwise_map]; exact this.2.1
+          · intro x hx y hy
+            simp only [List.mem_map] at hy
+            obtain ⟨y', hy', rfl⟩ := hy
+            exact this.2.2 x hx y' hy'
+        · intro y hy
+          simp only [deepSyms_mk, Frame.composition, List.mem_append, List.mem_map] at hy
+          rcases hy with hy | ⟨y', hy', rfl⟩
+          · exact (o2.2 y (List.mem_append_left _ hy)).mono (Leq.refl _) l3
+          · exact ((o2.2 y' (List.mem_append_right _ hy')).mono (Leq.refl _) l3 : y'.Between k _)
+theorem elems_ids (es : Elems) (lo : Ctr) (f : Frame) (k : Ctr) (f' : Frame) (k' : Ctr)
+    (h : specElems es f k = .ok (f', k')) (hlo : Leq lo k) (hf : FrameOK lo f k) : Leq k k' ∧ FrameOK lo f' k' := by
+  match es with
+  | .nil =>
+    simp only [specElems, Except.ok.injEq, Prod.mk.injEq] at h
+    obtain ⟨rfl, rfl⟩ := h
+    exact ⟨Leq.refl _, hf⟩
+  | .comp c t =>
+    simp only [specElems] at h
+    split at h
+    · next f1 k1 h1 =>
+      obtain ⟨_, _, rfl, rfl⟩ := specClause_ok.mp h1
+      have hk := clauseCtr_leq c k
+      obtain ⟨l, o⟩ := elems_ids t lo _ _ f' k' h (Leq.trans hlo hk) (hf.clause c hlo)
+      exact ⟨Leq.trans hk l, o⟩
+    · cases h
+  | .ext e t =>
+    simp only [specElems] at h
+    have hk := extEvsCtr_leq e.evs k
+    obtain ⟨l, o⟩ := elems_ids t lo _ _ f' k' h (Leq.trans hlo hk) (hf.mono hk : FrameOK lo (f.addExt e.path e.args) _)
+    exact ⟨Leq.trans hk l, o⟩
+  | .imp i t =>
+    simp only [specElems] at h
+    split at h
+    · next imps hi => exact elems_ids t lo _ _ f' k' h hlo hf
+    · cases h
+  | .cls c t =>
+    simp only [specElems] at h
+    split at h
+    · next a k1 h1 =>
+      obtain ⟨l1, p1, b1⟩ := class_ids c k a k1 h1
+      obtain ⟨l, o⟩ := elems_ids t lo _ _ f' k' h (Leq.trans hlo l1) (hf.attach hlo l1 p1 b1)
+      exact ⟨Leq.trans l1 l, o⟩
+    · cases h
+  | .short s t =>
+    simp only [specElems] at h
+    have hk := ticks_leq s.ticks k
+    have ha : FrameOK lo (f.attach (specShort s)) (ticks s.ticks k) :=
+      hf.attach hlo hk (by simp [deepSyms_specShort]) (by simp [deepSyms_specShort])
+    obtain ⟨l, o⟩ := elems_ids t lo _ _ f' k' h (Leq.trans hlo hk) ha
+    exact ⟨Leq.trans hk l, o⟩
+theorem sections_ids (ss : Sections) (lo : Ctr) (f : Frame) (k : Ctr) (f' : Frame) (k' : Ctr)
+    (h : specSections ss f k = .ok (f', k')) (hlo : Leq lo k) (hf : FrameOK lo f k) : Leq k k' ∧ FrameOK lo f' k' := by
+  match ss with
+  | .nil =>
+    simp only [specSections, Except.ok.injEq, Prod.mk.injEq] at h
+    obtain ⟨rfl, rfl⟩ := h
+    exact ⟨Leq.refl _, hf⟩
+  | .elems vis es t =>
+    simp only [specSections] at h
+    split at h
+    · next f1 k1 h1 =>
+      obtain ⟨l1, o1⟩ := elems_ids es lo f k f1 k1 h1 hlo hf
+      have o1' : FrameOK lo { f1 with closed := f1.closed ++ [some vis] } k1 := o1
+      obtain ⟨l, o⟩ := sections_ids t lo _ _ f' k' h (Leq.trans hlo l1) o1'
+      exact ⟨Leq.trans l1 l, o⟩
+    · cases h
+  | .eqs ini items t =>
+    simp only [specSections] at h
+    exact sections_ids t lo _ _ f' k' h hlo (hf : FrameOK lo { f with eqSecs := _ } k)
+  | .algs ini items t =>
+    simp only [specSections] at h
+    exact sections_ids t lo _ _ f' k' h hlo (hf : FrameOK lo { f with algSecs := _ } k)
+end
+
+/-! ## What a list of elements adds to its class -/
+
+/-- The fields of a class that elements never touch. -/
+def ClassInfo.rest (i : ClassInfo) : ClassInfo := { i with symbols := [], extends_ := [], imports := [] }
+
+def extOf (sec : Nat) (e : ExtSrc) : Ext := ⟨e.path, e.args, .priv, sec⟩
+
+structure Grow (es : Elems) (f : Frame) (k : Ctr) (f' : Frame) (k' : Ctr) : Prop where
+  closed : f'.closed = f.closed
+  eqSecs : f'.eqSecs = f.eqSecs
+  algSecs : f'.algSecs = f.algSecs
+  rest : f'.info.rest = f.info.rest
+  leq : Leq k k'
+  syms : ∃ S, f'.info.symbols = f.info.symbols ++ S ∧ S.map Sym.view = es.clauses.flatMap Clause.views ∧
+    S.map (·.sec) = List.replicate es.declCount f.closed.length ∧
+    S.Pairwise (fun a b => a.order < b.order) ∧ ∀ y ∈ S, k.symCount ≤ y.order ∧ y.order < k'.symCount
+  nodup : (f.info.symbols.map (·.name)).Nodup → (f'.info.symbols.map (·.name)).Nodup
+  exts : f'.info.extends_ = f.info.extends_ ++ es.exts.map (extOf f.closed.length)
+  imps : importsFold es.imps f.info.imports = .ok f'.info.imports
+
+theorem Elems.declCount_comp (c : Clause) (t : Elems) : (Elems.comp c t).declCount = c.decls.length + t.declCount := by
+  simp [Elems.declCount, Elems.clauses]
+
+theorem view_name (y : Sym) : y.view.name = y.name := rfl
+
+theorem elems_grow (es : Elems) (f : Frame) (k : Ctr) (f' : Frame) (k' : Ctr)
+    (h : specElems es f k = .ok (f', k')) : Grow es f k f' k' := by
+  match es with
+  | .nil =>
+    simp only [specElems, Except.ok.injEq, Prod.mk.injEq] at h
+    obtain ⟨rfl, rfl⟩ := h
+    exact ⟨rfl, rfl, rfl, rfl, Leq.refl _, ⟨[], by simp [Elems.clauses, Elems.declCount]⟩, id,
+      by simp [Elems.exts], by simp [Elems.imps, importsFold]⟩
+  | .comp c t =>
+    simp only [specElems] at h
+    split at h
+    · next f1 k1 h1 =>
+      obtain ⟨hn1, hn2, rfl, rfl⟩ := specClause_ok.mp h1
+      have g := elems_grow t _ _ f' k' h
+      have hk := clauseCtr_leq c k
+      have hg := clauseSyms_good c f.closed.length k
+      obtain ⟨S, hS, hv, hs, ho, hb⟩ := g.syms
+      refine ⟨g.closed, g.eqSecs, g.algSecs, g.rest, Leq.trans hk g.leq, ?_, ?_, g.exts, g.imps⟩
+      · refine ⟨clauseSyms c f.closed.length k ++ S, by simp [hS], ?_, ?_, ?_, ?_⟩
+        · simp [Elems.clauses, hv, clauseSyms_views]
+        · simp only [List.map_append, hs, Elems.declCount_comp, ← List.replicate_append_replicate]
+          congr 1
+          rw [List.eq_replicate_iff]
+          refine ⟨by simp [clauseSyms_length], ?_⟩
+          intro b hb'
+          simp only [List.mem_map] at hb'
+          obtain ⟨y, hy, rfl⟩ := hb'
+          exact (hg.2 y hy).2.1
+        · rw [List.pairwise_append]
+          refine ⟨hg.1.imp (fun h => h.2), ho, ?_⟩
+          intro a ha b hb'
+          have h1 := (hg.2 a ha).1
+          have h2 := (hb b hb').1
+          unfold Sym.Between at h1
+          omega
+        · intro y hy
+          rw [List.mem_append] at hy
+          rcases hy with hy | hy
+          · have h1 := (hg.2 y hy).1
+            have := g.leq
+            unfold Sym.Between at h1; unfold Leq at this
+            omega
+          · have := hb y hy
+            unfold Leq at hk
+            omega
+      · intro hnd
+        apply g.nodup
+        simp only [List.map_append, clauseSyms_names]
+        rw [List.nodup_append]
+        refine ⟨hnd, hn1, ?_⟩
+        intro a ha b hb' hab
+        subst hab
+        exact hn2 a hb' ha
+    · cases h
+  | .ext e t =>
+    simp only [specElems] at h
+    have g := elems_grow t _ _ f' k' h
+    have hk := extEvsCtr_leq e.evs k
+    obtain ⟨S, hS, hv, hs, ho, hb⟩ := g.syms
+    refine ⟨g.closed, g.eqSecs, g.algSecs, g.rest, Leq.trans hk g.leq, ⟨S, hS, ?_, ?_, ho, ?_⟩, g.nodup, ?_, g.imps⟩
+    · simpa [Elems.clauses] using hv
+    · simpa [Elems.declCount, Elems.clauses, Frame.addExt] using hs
+    · intro y hy; have := hb y hy; unfold Leq at hk; omega
+    · rw [g.exts]; simp [Frame.addExt, Elems.exts, extOf]
+  | .imp i t =>
+    simp only [specElems] at h
+    split at h
+    · next imps hi =>
+      have g := elems_grow t _ _ f' k' h
+      obtain ⟨S, hS, hv, hs, ho, hb⟩ := g.syms
+      refine ⟨g.closed, g.eqSecs, g.algSecs, g.rest, g.leq, ⟨S, hS, ?_, ?_, ho, hb⟩, g.nodup, ?_, ?_⟩
+      · simpa [Elems.clauses] using hv
+      · simpa [Elems.declCount, Elems.clauses] using hs
+      · rw [g.exts]; simp [Elems.exts]
+      · simp only [Elems.imps, importsFold, hi]; exact g.imps
+    · cases h
+  | .cls c t =>
+    simp only [specElems] at h
+    split at h
+    · next a k1 h1 =>
+      have g := elems_grow t _ _ f' k' h
+      have hk := (class_ids c k a k1 h1).1
+      obtain ⟨S, hS, hv, hs, ho, hb⟩ := g.syms
+      refine ⟨g.closed, g.eqSecs, g.algSecs, g.rest, Leq.trans hk g.leq, ⟨S, hS, ?_, ?_, ho, ?_⟩, g.nodup, ?_, g.imps⟩
+      · simpa [Elems.clauses] using hv
+      · simpa [Elems.declCount, Elems.clauses, Frame.attach] using hs
+      · intro y hy; have := hb y hy; unfold Leq at hk; omega
+      · rw [g.exts]; simp [Frame.attach, Elems.exts]
+    · cases h
+  | .short s t =>
+    simp only [specElems] at h
+    have g := elems_grow t _ _ f' k' h
+    have hk := ticks_leq s.ticks k
+    obtain ⟨S, hS, hv, hs, ho, hb⟩ := g.syms
+    refine ⟨g.closed, g.eqSecs, g.algSecs, g.rest, Leq.trans hk g.leq, ⟨S, hS, ?_, ?_, ho, ?_⟩, g.nodup, ?_, g.imps⟩
+    · simpa [Elems.clauses] using hv
+    · simpa [Elems.declCount, Elems.clauses, Frame.attach] using hs
+    · intro y hy; have := hb y hy; unfold Leq at hk; omega
+    · rw [g.exts]; simp [Frame.attach, Elems.exts]
+
+
+
+def Sections.eqSecList : Sections → List (Bool × List String)
+  | .nil => []
+  | .elems _ _ t => t.eqSecList
+  | .eqs i xs t => (i, xs) :: t.eqSecList
+  | .algs _ _ t => t.eqSecList
+
+def Sections.algSecList : Sections → List (Bool × List String)
+  | .nil => []
+  | .elems _ _ t => t.algSecList
+  | .eqs _ _ t => t.algSecList
+  | .algs i xs t => (i, xs) :: t.algSecList
+
+theorem importsFold_append (a b : List ImpSrc) (i0 i1 i2 : List (String × ImportVal))
+    (h1 : importsFold a i0 = .ok i1) (h2 : importsFold b i1 = .ok i2) : importsFold (a ++ b) i0 = .ok i2 := by
+  induction a generalizing i0 with
+  | nil => simp only [importsFold, Except.ok.injEq] at h1; subst h1; simpa using h2
+  | cons x t ih =>
+    simp only [importsFold, List.cons_append] at h1 ⊢
+    split at h1
+    · next imps hx => exact ih _ h1
+    · cases h1
+
+structure GrowS (ss : Sections) (f : Frame) (k : Ctr) (f' : Frame) (k' : Ctr) : Prop where
+  closed : f'.closed = f.closed ++ ss.labels
+  eqSecs : f'.eqSecs = f.eqSecs ++ ss.eqSecList
+  algSecs : f'.algSecs = f.algSecs ++ ss.algSecList
+  rest : f'.info.rest = f.info.rest
+  leq : Leq k k'
+  syms : ∃ S, f'.info.symbols = f.info.symbols ++ S ∧ S.map Sym.view = ss.clauses.flatMap Clause.views ∧
+    S.map (·.sec) = ss.secs f.closed.length ∧
+    S.Pairwise (fun a b => a.order < b.order) ∧ ∀ y ∈ S, k.symCount ≤ y.order ∧ y.order < k'.symCount
+  nodup : (f.info.symbols.map (·.name)).Nodup → (f'.info.symbols.map (·.name)).Nodup
+  exts : ∃ E, f'.info.extends_ = f.info.extends_ ++ E ∧
+    E.map (fun e => (e.path, e.args)) = ss.exts.map (fun e => (e.path, e.args)) ∧
+    E.map (·.sec) = ss.extSecs f.closed.length
+  imps : importsFold ss.imps f.info.imports = .ok f'.info.imports
+
+theorem sections_grow (ss : Sections) (f : Frame) (k : Ctr) (f' : Frame) (k' : Ctr)
+    (h : specSections ss f k = .ok (f', k')) : GrowS ss f k f' k' := by
+  match ss with
+  | .nil =>
+    simp only [specSections, Except.ok.injEq, Prod.mk.injEq] at h
+    obtain ⟨rfl, rfl⟩ := h
+    exact ⟨by simp [Sections.labels], by simp [Sections.eqSecList], by simp [Sections.algSecList], rfl, Leq.refl _,
+      ⟨[], by simp [Sections.clauses, Sections.secs]⟩, id, ⟨[], by simp [Sections.exts, Sections.extSecs]⟩,
+      by simp [Sections.imps, importsFold]⟩
+  | .elems vis es t =>
+    simp only [specSections] at h
+    split at h
+    · next f1 k1 h1 =>
+      have g1 := elems_grow es f k f1 k1 h1
+      have g2 := sections_grow t _ _ f' k' h
+      obtain ⟨S1, hS1, hv1, hs1, ho1, hb1⟩ := g1.syms
+      obtain ⟨S2, hS2, hv2, hs2, ho2, hb2⟩ := g2.syms
+      obtain ⟨E2, hE2, hp2, hx2⟩ := g2.exts
+      have hl1 := g1.leq
+      have hl2 := g2.leq
+      refine ⟨?_, ?_, ?_, g2.rest.trans g1.rest, Leq.trans g1.leq g2.leq, ?_, fun hn => g2.nodup (g1.nodup hn), ?_, ?_⟩
+      · rw [g2.closed]; simp [g1.closed, Sections.labels]
+      · rw [g2.eqSecs]; simp [g1.eqSecs, Sections.eqSecList]
+      · rw [g2.algSecs]; simp [g1.algSecs, Sections.algSecList]
+      · refine ⟨S1 ++ S2, by rw [hS2]; simp [hS1], ?_, ?_, ?_, ?_⟩
+        · simp [Sections.clauses, hv1, hv2]
+        · simp only [List.map_append, hs1, hs2, Sections.secs, g1.closed, List.length_append, List.length_cons,
+            List.length_nil]
+        · rw [List.pairwise_append]
+          refine ⟨ho1, ho2, ?_⟩
+          intro a ha b hb
+          have := hb1 a ha
+          have := hb2 b hb
+          omega
+        · intro y hy
+          unfold Leq at hl1 hl2
+          rw [List.mem_append] at hy
+          rcases hy with hy | hy
+          · have := hb1 y hy; omega
+          · have := hb2 y hy; omega
+      · refine ⟨es.exts.map (extOf f.closed.length) ++ E2, by rw [hE2]; simp [g1.exts], ?_, ?_⟩
+        · simp [Sections.exts, hp2, extOf, Function.comp_def]
+        · simp only [List.map_append, hx2, Sections.extSecs, g1.closed, List.length_append, List.length_cons,
+            List.length_nil, List.map_map]
+          congr 1
+          rw [List.eq_replicate_iff]
+          exact ⟨by simp, by simp [extOf]⟩
+      · exact importsFold_append _ _ _ _ _ g1.imps g2.imps
+    · cases h
+  | .eqs ini items t =>
+    simp only [specSections] at h
+    have g := sections_grow t _ _ f' k' h
+    obtain ⟨S, hS, hv, hs, ho, hb⟩ := g.syms
+    obtain ⟨E, hE, hp, hx⟩ := g.exts
+    exact ⟨by rw [g.closed]; simp [Sections.labels], by rw [g.eqSecs]; simp [Sections.eqSecList],
+      by rw [g.algSecs]; simp [Sections.algSecList], g.rest, g.leq,
+      ⟨S, hS, by simpa [Sections.clauses] using hv, by simpa [Sections.secs] using hs, ho, hb⟩, g.nodup,
+      ⟨E, hE, by simpa [Sections.exts] using hp, by simpa [Sections.extSecs] using hx⟩,
+      by simpa [Sections.imps] using g.imps⟩
+  | .algs ini items t =>
+    simp only [specSections] at h
+    have g := sections_grow t _ _ f' k' h
+    obtain ⟨S, hS, hv, hs, ho, hb⟩ := g.syms
+    obtain ⟨E, hE, hp, hx⟩ := g.exts
+    exact ⟨by rw [g.closed]; simp [Sections.labels], by rw [g.eqSecs]; simp [Sections.eqSecList],
+      by rw [g.algSecs]; simp [Sections.algSecList], g.rest, g.leq,
+      ⟨S, hS, by simpa [Sections.clauses] using hv, by simpa [Sections.secs] using hs, ho, hb⟩, g.nodup,
+      ⟨E, hE, by simpa [Sections.exts] using hp, by simpa [Sections.extSecs] using hx⟩,
+      by simpa [Sections.imps] using g.imps⟩
+
+
+
+theorem secItems_eqSecList (ss : Sections) (ini : Bool) : secItems ss.eqSecList ini = ss.items false ini := by
+  match ss with
+  | .nil => rfl
+  | .elems _ _ t => simpa [Sections.eqSecList, Sections.items] using secItems_eqSecList t ini
+  | .eqs i xs t =>
+    have := secItems_eqSecList t ini
+    unfold secItems at this ⊢
+    simp only [Sections.eqSecList, Sections.items, List.filter_cons, Bool.not_false, Bool.true_and]
+    split <;> simp [this]
+  | .algs _ _ t =>
+    have := secItems_eqSecList t ini
+    simpa [Sections.eqSecList, Sections.items] using this
+
+theorem secItems_algSecList (ss : Sections) (ini : Bool) : secItems ss.algSecList ini = ss.items true ini := by
+  match ss with
+  | .nil => rfl
+  | .elems _ _ t => simpa [Sections.algSecList, Sections.items] using secItems_algSecList t ini
+  | .algs i xs t =>
+    have := secItems_algSecList t ini
+    unfold secItems at this ⊢
+    simp only [Sections.algSecList, Sections.items, List.filter_cons, Bool.true_and]
+    split <;> simp [this]
+  | .eqs _ _ t =>
+    have := secItems_algSecList t ini
+    simpa [Sections.algSecList, Sections.items] using this
+
+/-- The two frames a class passes through: after its leading element list and after its sections. -/
+theorem class_frames {hd : ClassHdr} {first : Elems} {ss : Sections} {k : Ctr} {a : ClassAst} {k' : Ctr}
+    (h : specClass (.mk hd first ss) k = .ok (a, k')) :
+    ∃ f1 k1 f2 k2, Grow first (Frame.new hd.kind hd.partial_ hd.encapsulated) k f1 k1 ∧
+      GrowS ss { f1 with closed := f1.closed ++ [none] } k1 f2 k2 ∧
+      a = .mk { (f2.composition hd.annotation).info with name := some hd.name, comment := hd.comment } f2.classes ∧
+      k' = ticks hd.annTicks k2 := by
+  simp only [specClass] at h
+  split at h
+  · cases h
+  · next f1 k1 h1 =>
+    split at h
+    · cases h
+    · next f2 k2 h2 =>
+      simp only [Except.ok.injEq, Prod.mk.injEq] at h
+      obtain ⟨rfl, rfl⟩ := h
+      exact ⟨f1, k1, f2, k2, elems_grow _ _ _ _ _ h1, sections_grow _ _ _ _ _ h2, rfl, rfl⟩
+
+/-- Own symbols of a class, before `exitComposition` assigns visibilities. -/
+theorem class_symbols {hd : ClassHdr} {first : Elems} {ss : Sections} {k : Ctr} {a : ClassAst} {k' : Ctr}
+    (h : specClass (.mk hd first ss) k = .ok (a, k')) :
+    ∃ S : List Sym, a.info.symbols = S.map (fun y => { y with vis := visOf (ClassSrc.mk hd first ss).labels y.sec }) ∧
+      S.map Sym.view = (ClassSrc.mk hd first ss).views ∧ S.map (·.sec) = (ClassSrc.mk hd first ss).secs ∧
+      S.Pairwise (fun a b => a.order < b.order) ∧ (S.map (·.name)).Nodup := by
+  obtain ⟨f1, k1, f2, k2, g1, g2, rfl, rfl⟩ := class_frames h
+  obtain ⟨S1, hS1, hv1, hs1, ho1, hb1⟩ := g1.syms
+  obtain ⟨S2, hS2, hv2, hs2, ho2, hb2⟩ := g2.syms
+  have hc1 : f1.closed = [] := g1.closed
+  have hcl : f2.closed = (ClassSrc.mk hd first ss).labels := by
+    rw [g2.closed]; simp [hc1, ClassSrc.labels]
+  have hsy : f2.info.symbols = S1 ++ S2 := by
+    rw [hS2]; simp only [hS1]; simp [Frame.new, ClassInfo.new]
+  refine ⟨S1 ++ S2, ?_, ?_, ?_, ?_, ?_⟩
+  · simp [ClassAst.info, Frame.composition, hsy, hcl]
+  · simp [ClassSrc.views, ClassSrc.clauses, hv1, hv2]
+  · simp only [List.map_append, hs1, hs2, ClassSrc.secs, hc1]; rfl
+  · rw [List.pairwise_append]
+    refine ⟨ho1, ho2, ?_⟩
+    intro x hx y hy
+    have := hb1 x hx
+    have := hb2 y hy
+    omega
+  · have := g2.nodup (g1.nodup (by simp [Frame.new, ClassInfo.new]))
+    rw [hsy] at this
+    exact this
+
+
+
+/-- Header fields and equation / algorithm sections of a class. -/
+theorem class_sections {hd : ClassHdr} {first : Elems} {ss : Sections} {k : Ctr} {a : ClassAst} {k' : Ctr}
+    (h : specClass (.mk hd first ss) k = .ok (a, k')) :
+    a.info.name = some hd.name ∧ a.info.kind = hd.kind ∧ a.info.partial_ = hd.partial_ ∧
+    a.info.encapsulated = hd.encapsulated ∧ a.info.final = false ∧ a.info.comment = hd.comment ∧
+    a.info.annotation = hd.annotation ∧
+    a.info.equations = ss.items false false ∧ a.info.initialEquations = ss.items false true ∧
+    a.info.statements = ss.items true false ∧ a.info.initialStatements = ss.items true true := by
+  obtain ⟨f1, k1, f2, k2, g1, g2, rfl, rfl⟩ := class_frames h
+  have hr : f2.info.rest = (Frame.new hd.kind hd.partial_ hd.encapsulated).info.rest := g2.rest.trans g1.rest
+  have e1 := congrArg ClassInfo.kind hr
+  have e2 := congrArg ClassInfo.partial_ hr
+  have e3 := congrArg ClassInfo.encapsulated hr
+  have e4 := congrArg ClassInfo.final hr
+  have e5 := congrArg ClassInfo.annotation hr
+  have e6 := congrArg ClassInfo.equations hr
+  have e7 := congrArg ClassInfo.initialEquations hr
+  have e8 := congrArg ClassInfo.statements hr
+  have e9 := congrArg ClassInfo.initialStatements hr
+  simp only [ClassInfo.rest, Frame.new, ClassInfo.new] at e1 e2 e3 e4 e5 e6 e7 e8 e9
+  have hq : f2.eqSecs = ss.eqSecList := by rw [g2.eqSecs]; simp [g1.eqSecs, Frame.new]
+  have ha : f2.algSecs = ss.algSecList := by rw [g2.algSecs]; simp [g1.algSecs, Frame.new]
+  simp only [ClassAst.info, Frame.composition, e1, e2, e3, e4, e5, e6, e7, e8, e9, hq, ha, List.nil_append,
+    secItems_eqSecList, secItems_algSecList, true_and]
+  cases hd.annotation <;> simp
+
+/-- Extends clauses and imports of a class. -/
+theorem class_extends {hd : ClassHdr} {first : Elems} {ss : Sections} {k : Ctr} {a : ClassAst} {k' : Ctr}
+    (h : specClass (.mk hd first ss) k = .ok (a, k')) :
+    a.info.extends_.map (fun e => (e.path, e.args)) = (ClassSrc.mk hd first ss).exts.map (fun e => (e.path, e.args)) ∧
+    a.info.extends_.map (·.vis) =
+      (ClassSrc.mk hd first ss).extSecs.map (visOf (ClassSrc.mk hd first ss).labels) ∧
+    importsFold (ClassSrc.mk hd first ss).imps [] = .ok a.info.imports := by
+  obtain ⟨f1, k1, f2, k2, g1, g2, rfl, rfl⟩ := class_frames h
+  obtain ⟨E2, hE2, hp2, hx2⟩ := g2.exts
+  have hc1 : f1.closed = [] := g1.closed
+  have hcl : f2.closed = (ClassSrc.mk hd first ss).labels := by
+    rw [g2.closed]; simp [hc1, ClassSrc.labels]
+  have hex : f2.info.extends_ = first.exts.map (extOf 0) ++ E2 := by
+    rw [hE2]; simp only [g1.exts]; simp [Frame.new, ClassInfo.new]
+  refine ⟨?_, ?_, ?_⟩
+  · simp [ClassAst.info, Frame.composition, hex, ClassSrc.exts, hp2, extOf, Function.comp_def]
+  · simp only [ClassAst.info, Frame.composition, hex, hcl, List.map_map, List.map_append, ClassSrc.extSecs]
+    congr 1
+    · simp [Function.comp_def, extOf, List.map_const']
+    · have hx2' : ss.extSecs 1 = E2.map (·.sec) := by rw [hx2]; simp [hc1]
+      rw [hx2', List.map_map]
+      rfl
+  · have := importsFold_append _ _ _ _ _ g1.imps g2.imps
+    simpa [ClassSrc.imps, ClassAst.info, Frame.composition, Frame.new, ClassInfo.new] using this
+
+/-! ## Nested classes -/
+
+/-- `ast` is what the specification gives for the nested definition `src` (at some counter state). -/
+def NestedSpec (src : ClassSrc ⊕ ShortSrc) (ast : ClassAst) : Prop :=
+  match src with
+  | .inl c => ∃ k k', specClass c k = .ok (ast, k')
+  | .inr s => ast = specShort s
+
+/-- Pointwise relation between the nested definitions and trees (own definition: core has no
+    append lemma for `List.Forall₂`). -/
+inductive NestedAll : List (ClassSrc ⊕ ShortSrc) → List ClassAst → Prop
+  | nil : NestedAll [] []
+  | cons {s a ss as} : NestedSpec s a → NestedAll ss as → NestedAll (s :: ss) (a :: as)
+
+theorem NestedAll.append {s1 s2 a1 a2} (h1 : NestedAll s1 a1) (h2 : NestedAll s2 a2) : NestedAll (s1 ++ s2) (a1 ++ a2) := by
+  induction h1 with
+  | nil => simpa using h2
+  | cons h _ ih => exact .cons h ih
+
+theorem elems_nested (es : Elems) (f : Frame) (k : Ctr) (f' : Frame) (k' : Ctr)
+    (h : specElems es f k = .ok (f', k')) :
+    ∃ As, NestedAll es.nested As ∧ f'.classes = As.foldl dictSet f.classes := by
+  match es with
+  | .nil =>
+    simp only [specElems, Except.ok.injEq, Prod.mk.injEq] at h
+    obtain ⟨rfl, rfl⟩ := h
+    exact ⟨[], .nil, rfl⟩
+  | .comp c t =>
+    simp only [specElems] at h
+    split at h
+    · next f1 k1 h1 =>
+      obtain ⟨_, _, rfl, rfl⟩ := specClause_ok.mp h1
+      obtain ⟨As, hA, hc⟩ := elems_nested t _ _ f' k' h
+      exact ⟨As, by simpa [Elems.nested] using hA, hc⟩
+    · cases h
+  | .ext e t =>
+    simp only [specElems] at h
+    obtain ⟨As, hA, hc⟩ := elems_nested t _ _ f' k' h
+    exact ⟨As, by simpa [Elems.nested] using hA, hc⟩
+  | .imp i t =>
+    simp only [specElems] at h
+    split at h
+    · obtain ⟨As, hA, hc⟩ := elems_nested t _ _ f' k' h
+      exact ⟨As, by simpa [Elems.nested] using hA, hc⟩
+    · cases h
+  | .cls c t =>
+    simp only [specElems] at h
+    split at h
+    · next a k1 h1 =>
+      obtain ⟨As, hA, hc⟩ := elems_nested t _ _ f' k' h
+      exact ⟨a :: As, .cons ⟨k, k1, h1⟩ hA, by simpa [Frame.attach] using hc⟩
+    · cases h
+  | .short s t =>
+    simp only [specElems] at h
+    obtain ⟨As, hA, hc⟩ := elems_nested t _ _ f' k' h
+    exact ⟨specShort s :: As, .cons rfl hA, by simpa [Frame.attach] using hc⟩
+
+theorem sections_nested (ss : Sections) (f : Frame) (k : Ctr) (f' : Frame) (k' : Ctr)
+    (h : specSections ss f k = .ok (f', k')) :
+    ∃ As, NestedAll ss.nested As ∧ f'.classes = As.foldl dictSet f.classes := by
+  match ss with
+  | .nil =>
+    simp only [specSections, Except.ok.injEq, Prod.mk.injEq] at h
+    obtain ⟨rfl, rfl⟩ := h
+    exact ⟨[], .nil, rfl⟩
+  | .elems vis es t =>
+    simp only [specSections] at h
+    split at h
+    · next f1 k1 h1 =>
+      obtain ⟨A1, hA1, hc1⟩ := elems_nested es f k f1 k1 h1
+      obtain ⟨A2, hA2, hc2⟩ := sections_nested t _ _ f' k' h
+      exact ⟨A1 ++ A2, hA1.append hA2, by rw [hc2]; simp [hc1, List.foldl_append]⟩
+    · cases h
+  | .eqs _ _ t =>
+    simp only [specSections] at h
+    obtain ⟨As, hA, hc⟩ := sections_nested t _ _ f' k' h
+    exact ⟨As, by simpa [Sections.nested] using hA, hc⟩
+  | .algs _ _ t =>
+    simp only [specSections] at h
+    obtain ⟨As, hA, hc⟩ := sections_nested t _ _ f' k' h
+    exact ⟨As, by simpa [Sections.nested] using hA, hc⟩
+
+theorem class_nested {hd : ClassHdr} {first : Elems} {ss : Sections} {k : Ctr} {a : ClassAst} {k' : Ctr}
+    (h : specClass (.mk hd first ss) k = .ok (a, k')) :
+    ∃ As, NestedAll (ClassSrc.mk hd first ss).nested As ∧ a.classes = As.foldl dictSet [] := by
+  simp only [specClass] at h
+  split at h
+  · cases h
+  · next f1 k1 h1 =>
+    split at h
+    · cases h
+    · next f2 k2 h2 =>
+      simp only [Except.ok.injEq, Prod.mk.injEq] at h
+      obtain ⟨rfl, rfl⟩ := h
+      obtain ⟨A1, hA1, hc1⟩ := elems_nested _ _ _ _ _ h1
+      obtain ⟨A2, hA2, hc2⟩ := sections_nested _ _ _ _ _ h2
+      refine ⟨A1 ++ A2, hA1.append hA2, ?_⟩
+      simp only [ClassAst.classes, Frame.composition, hc2, hc1, List.foldl_append]
+      rfl
+
+theorem dictSet_fresh {l : List ClassAst} {c : ClassAst} (h : ∀ x ∈ l, x.name ≠ c.name) : dictSet l c = l ++ [c] := by
+  induction l with
+  | nil => rfl
+  | cons x t ih =>
+    simp only [dictSet]
+    rw [if_neg (h x (by simp)), ih (fun y hy => h y (by simp [hy]))]
+    rfl
+
+/-- Distinct names: the dict holds the definitions themselves, in source order. -/
+theorem foldl_dictSet_nodup (As base : List ClassAst) (h : ((base ++ As).map (·.name)).Nodup) :
+    As.foldl dictSet base = base ++ As := by
+  induction As generalizing base with
+  | nil => simp
+  | cons a t ih =>
+    simp only [List.foldl_cons]
+    have hf : dictSet base a = base ++ [a] := by
+      apply dictSet_fresh
+      intro x hx hxa
+      simp only [List.map_append, List.map_cons] at h
+      rw [List.nodup_append] at h
+      exact h.2.2 x.name (List.mem_map_of_mem hx) a.name (by simp) hxa
+    rw [hf, ih]
+    · simp
+    · simpa using h
+
+/-! ## Visibility of every section -/
+
+theorem secs_vis (ss : Sections) (p : List (Option Vis)) :
+    (ss.secs p.length).map (visOf (p ++ ss.labels)) = ss.declVis := by
+  match ss with
+  | .nil => rfl
+  | .elems v es t =>
+    simp only [Sections.secs, Sections.labels, Sections.declVis, List.map_append, List.map_replicate]
+    have := secs_vis t (p ++ [some v])
+    simp only [List.length_append, List.length_cons, List.length_nil, List.append_assoc, List.cons_append,
+      List.nil_append] at this
+    rw [this]
+    congr 2
+    simp [visOf, labelVis]
+  | .eqs _ _ t => simpa [Sections.secs, Sections.labels, Sections.declVis] using secs_vis t p
+  | .algs _ _ t => simpa [Sections.secs, Sections.labels, Sections.declVis] using secs_vis t p
+
+theorem extSecs_vis (ss : Sections) (p : List (Option Vis)) :
+    (ss.extSecs p.length).map (visOf (p ++ ss.labels)) = ss.extVis := by
+  match ss with
+  | .nil => rfl
+  | .elems v es t =>
+    simp only [Sections.extSecs, Sections.labels, Sections.extVis, List.map_append, List.map_replicate]
+    have := extSecs_vis t (p ++ [some v])
+    simp only [List.length_append, List.length_cons, List.length_nil, List.append_assoc, List.cons_append,
+      List.nil_append] at this
+    rw [this]
+    congr 2
+    simp [visOf, labelVis]
+  | .eqs _ _ t => simpa [Sections.extSecs, Sections.labels, Sections.extVis] using extSecs_vis t p
+  | .algs _ _ t => simpa [Sections.extSecs, Sections.labels, Sections.extVis] using extSecs_vis t p
+
+theorem class_secs_vis (c : ClassSrc) : c.secs.map (visOf c.labels) = c.declVis := by
+  match c with
+  | .mk hd first ss =>
+    simp only [ClassSrc.secs, ClassSrc.labels, ClassSrc.declVis, List.map_append, List.map_replicate]
+    have := secs_vis ss [none]
+    simp only [List.length_cons, List.length_nil, List.cons_append, List.nil_append] at this
+    rw [this]
+    rfl
+
+theorem class_extSecs_vis (c : ClassSrc) : c.extSecs.map (visOf c.labels) = c.extVis := by
+  match c with
+  | .mk hd first ss =>
+    simp only [ClassSrc.extSecs, ClassSrc.labels, ClassSrc.extVis, List.map_append, List.map_replicate]
+    have := extSecs_vis ss [none]
+    simp only [List.length_cons, List.length_nil, List.cons_append, List.nil_append] at this
+    rw [this]
+    rfl
+
+theorem views_names (c : ClassSrc) : c.views.map (·.name) = c.names := by
+  unfold ClassSrc.views ClassSrc.names
+  induction c.clauses with
+  | nil => rfl
+  | cons x t ih => simp [List.flatMap_cons, ih, Clause.views, Clause.names, Function.comp_def]
+
+/-- Own components of a class: names, in order, once. -/
+theorem class_names {c : ClassSrc} {k : Ctr} {a : ClassAst} {k' : Ctr} (h : specClass c k = .ok (a, k')) :
+    a.info.symbols.map (·.name) = c.names ∧ c.names.Nodup := by
+  match c with
+  | .mk hd first ss =>
+    obtain ⟨S, hS, hv, _, _, hn⟩ := class_symbols h
+    have : S.map (·.name) = (ClassSrc.mk hd first ss).names := by
+      rw [← views_names, ← hv]; simp [Function.comp_def, view_name]
+    rw [this] at hn
+    refine ⟨?_, hn⟩
+    rw [hS, ← this]
+    simp [Function.comp_def]
+
+
+
+/-! ## A component declared twice anywhere is rejected; no other kind of failure exists -/
+
+mutual
+theorem class_deep_nodup (c : ClassSrc) (k : Ctr) (a : ClassAst) (k' : Ctr) (h : specClass c k = .ok (a, k')) :
+    ∀ c' ∈ c.deep, c'.names.Nodup := by
+  match c with
+  | .mk hd first ss =>
+    have hown := (class_names h).2
+    simp only [specClass] at h
+    split at h
+    · cases h
+    · next f1 k1 h1 =>
+      split at h
+      · cases h
+      · next f2 k2 h2 =>
+        intro c' hc'
+        simp only [ClassSrc.deep, List.mem_cons, List.mem_append] at hc'
+        rcases hc' with rfl | hc' | hc'
+        · exact hown
+        · exact elems_deep_nodup first _ _ _ _ h1 c' hc'
+        · exact sections_deep_nodup ss _ _ _ _ h2 c' hc'
+theorem elems_deep_nodup (es : Elems) (f : Frame) (k : Ctr) (f' : Frame) (k' : Ctr)
+    (h : specElems es f k = .ok (f', k')) : ∀ c' ∈ es.deep, c'.names.Nodup := by
+  match es with
+  | .nil => intro c' hc'; simp [Elems.deep] at hc'
+  | .comp c t =>
+    simp only [specElems] at h
+    split at h
+    · simpa [Elems.deep] using elems_deep_nodup t _ _ _ _ h
+    · cases h
+  | .ext e t =>
+    simp only [specElems] at h
+    simpa [Elems.deep] using elems_deep_nodup t _ _ _ _ h
+  | .imp i t =>
+    simp only [specElems] at h
+    split at h
+    · simpa [Elems.deep] using elems_deep_nodup t _ _ _ _ h
+    · cases h
+  | .cls c t =>
+    simp only [specElems] at h
+    split at h
+    · next a k1 h1 =>
+      intro c' hc'
+      simp only [Elems.deep, List.mem_append] at hc'
+      rcases hc' with hc' | hc'
+      · exact class_deep_nodup c _ _ _ h1 c' hc'
+      · exact elems_deep_nodup t _ _ _ _ h c' hc'
+    · cases h
+  | .short s t =>
+    simp only [specElems] at h
+    simpa [Elems.deep] using elems_deep_nodup t _ _ _ _ h
+theorem sections_deep_nodup (ss : Sections) (f : Frame) (k : Ctr) (f' : Frame) (k' : Ctr)
+    (h : specSections ss f k = .ok (f', k')) : ∀ c' ∈ ss.deep, c'.names.Nodup := by
+  match ss with
+  | .nil => intro c' hc'; simp [Sections.deep] at hc'
+  | .elems vis es t =>
+    simp only [specSections] at h
+    split at h
+    · next f1 k1 h1 =>
+      intro c' hc'
+      simp only [Sections.deep, List.mem_append] at hc'
+      rcases hc' with hc' | hc'
+      · exact elems_deep_nodup es _ _ _ _ h1 c' hc'
+      · exact sections_deep_nodup t _ _ _ _ h c' hc'
+    · cases h
+  | .eqs _ _ t =>
+    simp only [specSections] at h
+    simpa [Sections.deep] using sections_deep_nodup t _ _ _ _ h
+  | .algs _ _ t =>
+    simp only [specSections] at h
+    simpa [Sections.deep] using sections_deep_nodup t _ _ _ _ h
+end
+
+/-- The failures the listener itself raises. -/
+def Err.Listener (e : Err) : Prop := (∃ n, e = .alreadyDefined n) ∨ (∃ n, e = .alreadyImported n)
+
+theorem specDecls_err {cl : ClauseSt} {names : List String} {sec : Nat} {ds : List Decl} {acc : List Sym} {k : Ctr}
+    {e : Err} (h : specDecls cl names sec ds acc k = .error e) : e.Listener := by
+  induction ds generalizing acc k with
+  | nil => simp [specDecls] at h
+  | cons d t ih =>
+    simp only [specDecls] at h
+    split at h
+    · exact ih h
+    · next e' he =>
+      simp only [Except.error.injEq] at h
+      subst h
+      exact Or.inl ⟨_, (specDecl_err.mp he).2⟩
+
+theorem specClause_err {c : Clause} {f : Frame} {k : Ctr} {e : Err} (h : specClause c f k = .error e) : e.Listener := by
+  unfold specClause at h
+  simp only [] at h
+  split at h
+  · cases h
+  · next e' he =>
+    simp only [Except.error.injEq] at h
+    subst h
+    exact specDecls_err he
+
+theorem addRefs_err {imps : List (String × ImportVal)} {path names : List String} {e : Err}
+    (h : addRefs imps path names = .error e) : e.Listener := by
+  induction names generalizing imps with
+  | nil => simp [addRefs] at h
+  | cons n t ih =>
+    simp only [addRefs] at h
+    split at h
+    · simp only [Except.error.injEq] at h; subst h; exact Or.inr ⟨_, rfl⟩
+    · exact ih h
+
+theorem addImport_err {imps : List (String × ImportVal)} {i : ImpSrc} {e : Err}
+    (h : addImport imps i = .error e) : e.Listener := by
+  cases i with
+  | qual path => exact addRefs_err h
+  | short n path => simp [addImport] at h
+  | star path => simp [addImport] at h
+  | list path names => exact addRefs_err h
+
+mutual
+theorem class_err (c : ClassSrc) (k : Ctr) (e : Err) (h : specClass c k = .error e) : e.Listener := by
+  match c with
+  | .mk hd first ss =>
+    simp only [specClass] at h
+    split at h
+    · next e' he => simp only [Except.error.injEq] at h; subst h; exact elems_err first _ _ _ he
+    · next f1 k1 h1 =>
+      split at h
+      · next e' he => simp only [Except.error.injEq] at h; subst h; exact sections_err ss _ _ _ he
+      · cases h
+theorem elems_err (es : Elems) (f : Frame) (k : Ctr) (e : Err) (h : specElems es f k = .error e) : e.Listener := by
+  match es with
+  | .nil => simp [specElems] at h
+  | .comp c t =>
+    simp only [specElems] at h
+    split at h
+    · exact elems_err t _ _ _ h
+    · next e' he => simp only [Except.error.injEq] at h; subst h; exact specClause_err he
+  | .ext _ t => simp only [specElems] at h; exact elems_err t _ _ _ h
+  | .imp i t =>
+    simp only [specElems] at h
+    split at h
+    · exact elems_err t _ _ _ h
+    · next e' he => simp only [Except.error.injEq] at h; subst h; exact addImport_err he
+  | .cls c t =>
+    simp only [specElems] at h
+    split at h
+    · exact elems_err t _ _ _ h
+    · next e' he => simp only [Except.error.injEq] at h; subst h; exact class_err c _ _ he
+  | .short _ t => simp only [specElems] at h; exact elems_err t _ _ _ h
+theorem sections_err (ss : Sections) (f : Frame) (k : Ctr) (e : Err) (h : specSections ss f k = .error e) : e.Listener := by
+  match ss with
+  | .nil => simp [specSections] at h
+  | .elems _ es t =>
+    simp only [specSections] at h
+    split at h
+    · exact sections_err t _ _ _ h
+    · next e' he => simp only [Except.error.injEq] at h; subst h; exact elems_err es _ _ _ he
+  | .eqs _ _ t => simp only [specSections] at h; exact sections_err t _ _ _ h
+  | .algs _ _ t => simp only [specSections] at h; exact sections_err t _ _ _ h
+end
+
+/-! ## Whole files -/
+
+theorem deepSyms_setFinal (fin : Bool) (a : ClassAst) : deepSyms (setFinal fin a) = deepSyms a := by
+  cases a with
+  | mk i cs => simp [setFinal, deepSyms_mk]
+
+/-- The top-level definitions of a file and the trees the specification gives for them. -/
+inductive FileAll : List (Bool × ClassSrc) → List ClassAst → Prop
+  | nil : FileAll [] []
+  | cons {fin c a k k' t as} : specClass c k = .ok (a, k') → FileAll t as → FileAll ((fin, c) :: t) (setFinal fin a :: as)
+
+theorem specFile_ok (file : List (Bool × ClassSrc)) (acc : List ClassAst) (lo k : Ctr) (r : List ClassAst)
+    (h : specFile file acc k = .ok r) (hlo : Leq lo k)
+    (hp : (deepSymsList acc).Pairwise Sym.Distinct) (hb : ∀ y ∈ deepSymsList acc, y.Between lo k) :
+    (deepSymsList r).Pairwise Sym.Distinct ∧ (∀ c ∈ file, ∀ c' ∈ c.2.deep, c'.names.Nodup) ∧
+    ∃ As, FileAll file As ∧ r = As.foldl dictSet acc := by
+  induction file generalizing acc k with
+  | nil =>
+    simp only [specFile, Except.ok.injEq] at h
+    subst h
+    exact ⟨hp, by simp, [], .nil, rfl⟩
+  | cons x t ih =>
+    obtain ⟨fin, c⟩ := x
+    simp only [specFile] at h
+    split at h
+    · next a k1 h1 =>
+      obtain ⟨l1, p1, b1⟩ := class_ids c k a k1 h1
+      have hp' : (deepSymsList (dictSet acc (setFinal fin a))).Pairwise Sym.Distinct := by
+        have := pairwise_dictSet (fun h => Sym.Distinct.symm h) acc (setFinal fin a) []
+          (by simpa using hp) (by rw [deepSyms_setFinal]; exact p1)
+          (by
+            intro x hx y hy
+            rw [deepSyms_setFinal] at hy
+            exact ((hb x (by simpa using hx)).distinct (b1 y hy) (Leq.refl k)).1)
+        simpa using this
+      have hb' : ∀ y ∈ deepSymsList (dictSet acc (setFinal fin a)), y.Between lo k1 := by
+        intro y hy
+        rcases mem_deepSymsList_dictSet hy with hy | hy
+        · exact (hb y hy).mono (Leq.refl _) l1
+        · rw [deepSyms_setFinal] at hy; exact (b1 y hy).mono hlo (Leq.refl _)
+      obtain ⟨r1, r2, As, hA, hr⟩ := ih _ _ h (Leq.trans hlo l1) hp' hb'
+      refine ⟨r1, ?_, setFinal fin a :: As, .cons h1 hA, by simpa using hr⟩
+      intro c0 hc0 c' hc'
+      simp only [List.mem_cons] at hc0
+      rcases hc0 with rfl | hc0
+      · exact class_deep_nodup c k a k1 h1 c' hc'
+      · exact r2 c0 hc0 c' hc'
+    · cases h
+
+theorem specFile_err (file : List (Bool × ClassSrc)) (acc : List ClassAst) (k : Ctr) (e : Err)
+    (h : specFile file acc k = .error e) : e.Listener := by
+  induction file generalizing acc k with
+  | nil => simp [specFile] at h
+  | cons x t ih =>
+    obtain ⟨fin, c⟩ := x
+    simp only [specFile] at h
+    split at h
+    · exact ih _ _ h
+    · next e' he => simp only [Except.error.injEq] at h; subst h; exact class_err c _ _ he
+
 end PymocaVerif.ClassAsm
